@@ -67,14 +67,56 @@ def _dict_stores(ctx: Ctx, f: Func):
                 continue
             for k_, v_ in kws.items():
                 if isinstance(v_, ast.Name):
-                    defs = [n for n in nodes_in(g, (ast.Assign, ast.AnnAssign)) if n.value is not None
-                            and any(isinstance(t_, ast.Name) and t_.id == v_.id for t_ in (n.targets if isinstance(n, ast.Assign) else [n.target]))
-                            and not (isinstance(n.value, ast.Constant) and n.value.value is None)]
-                    if len(defs) == 1:
-                        out.setdefault(k_, (defs[0], ctx.X.at(g, defs[0].value), g))
+                    r_ = _resolve_local(ctx, g, v_.id, None, 0)
+                    if r_ is not None:
+                        out.setdefault(k_, (r_[0], r_[1], g))
                 else:
                     out.setdefault(k_, (v_, ctx.X.at(g, v_), g))
     return out
+
+
+def _resolve_local(ctx: Ctx, g: Func, name: str, idx, depth: int):
+    """(defining statement, value term) of a local that is None unless one computation sets it - through plain
+    assignments, tuple packing/unpacking and `pair or (None, None)` defaults."""
+    from ..terms import _project
+
+    if depth > 4:
+        return None
+    cands = []
+    for n in nodes_in(g, (ast.Assign, ast.AnnAssign)):
+        if n.value is None:
+            continue
+        for t_ in (n.targets if isinstance(n, ast.Assign) else [n.target]):
+            if isinstance(t_, ast.Name) and t_.id == name:
+                cands.append((n, n.value, None))
+            elif isinstance(t_, (ast.Tuple, ast.List)):
+                for i, e in enumerate(t_.elts):
+                    if isinstance(e, ast.Name) and e.id == name:
+                        cands.append((n, n.value, i))
+
+    def is_none(v):
+        return (isinstance(v, ast.Constant) and v.value is None) or (isinstance(v, (ast.Tuple, ast.List)) and all(is_none(e) for e in v.elts))
+
+    cands = [(n, v, i) for n, v, i in cands if not is_none(v)]
+    if len(cands) != 1:
+        return None
+    n, v, i = cands[0]
+    if isinstance(v, ast.BoolOp) and isinstance(v.op, ast.Or) and all(is_none(x) for x in v.values[1:]):
+        v = v.values[0]  # `pair or (None, None)`
+    path = [] if i is None else [i]
+    if idx is not None:
+        path.append(idx)
+    # walk into tuple displays
+    while path and isinstance(v, (ast.Tuple, ast.List)) and path[0] < len(v.elts):
+        v = v.elts[path.pop(0)]
+    if isinstance(v, ast.Name) and len(path) <= 1:
+        r_ = _resolve_local(ctx, g, v.id, path[0] if path else None, depth + 1)
+        if r_ is not None:
+            return r_
+    t = ctx.X.at(g, v)
+    if path:
+        t = _project(t, tuple(path))
+    return n, t
 
 
 def _anonp(t):
